@@ -154,6 +154,17 @@ def run(chk):
             for polls, writes in ((['a', 'b', 'c'], ['a', 'c']), (['a', 'c'], ['b']), (['a', 'b'], [])):
                 cfgs.append(dict(order=list(order), att=att, wrong=[], fail={m: 'none' for m in 'abc'}, polls=polls,
                                  writes=writes, acc={m: 'init' for m in 'abc'}, exported=['a', 'b', 'c'], host=host))
+    # a poll in flight when the shutdown begins (it ends within the grace period): no module is shut down before
+    # every poll thread has been waited for, whatever the declaration order
+    for order in itertools.permutations('abc'):
+        for slow in 'abc':
+            cfgs.append(dict(order=list(order), att={m: [] for m in 'abc'}, wrong=[], fail={m: 'none' for m in 'abc'},
+                             polls=['a', 'b', 'c'], writes=[], acc={m: 'init' for m in 'abc'}, exported=['a', 'b', 'c'],
+                             polldur={slow: 0.3}))
+    for order in (['a', 'b'], ['b', 'a']):
+        cfgs.append(dict(order=order, att={'a': ['b'], 'b': []}, wrong=[], fail={'a': 'none', 'b': 'none'}, polls=['a', 'b'],
+                         writes=[], acc={'a': 'init', 'b': 'init'}, exported=['a', 'b'], polldur={'a': 0.3},
+                         host={'a': 'b', 'b': 'b'}))
     traces = pool_map(_run, cfgs)
     # thread schedules: the server thread (start loop, start events, shutdown) against the poll threads
     jobs = []
